@@ -310,6 +310,7 @@ func vxInfoOf(name string, in *vxInode) os.FileInfo {
 // ---- call log and fault injection ----
 
 func (fs *vxFS) begin(c vxFSCall) int {
+	vxJitter()
 	if fs.check != nil {
 		fs.check(c.op, c.path)
 		if c.op == "link" || c.op == "rename" {
